@@ -1,5 +1,6 @@
 import SSVerif.Proofs.Search
 import SSVerif.Proofs.SearchHmm
+import SSVerif.Proofs.SearchLex
 /-!
 # C01, growth stage (M10) — the token-passing search always produces a well-formed history table
 
@@ -101,6 +102,25 @@ theorem C01_search_checkers_sound :
     (decide (AllCleared lt s) = true → AllCleared lt s) :=
   ⟨of_decide_eq_true, searchInvB_iff lt g s, startRelB_sound, stepRelB_sound, of_decide_eq_true⟩
 
+/-- **C01, growth: the lextree the code constructs satisfies `LexTreeOK`.**  `buildLexTree li g` mirrors
+`fsg_lextree_init` (`fsg_lextree_lc_rc`, `fsg_psubtree_init` per FSG state, `psubtree_add_trans` per word arc:
+single-phone words, word-initial roots per distinct left-context ssid, the shared `(ci, rc)` root sets of
+`curglist`, the shared internal chain, word-final leaves per distinct right-context ssid, the sibling/succ
+wiring including "link to the end of the sibling chain … once") from the FSG, the pronunciations and the
+senone-sequence lookups as **arbitrary functions**.  For every such input (the silence phone being a CI phone):
+roots of `root[d]` are pnodes of state `d`, children belong to the state of their parent, a leaf carries a
+word arc (`wid ≥ 0`) leaving the state it belongs to. -/
+theorem C01_build_lexTreeOK (li : LexIn) (g : Fsg) (hsil : li.sil < li.nCi) : LexTreeOK (buildLexTree li g) g :=
+  build_lexTreeOK li g hsil
+
+/-- **C01, growth, composed: over the lextree the code builds, every reachable state of the search has a
+well-formed history table** — no per-lextree check left in the chain of theorems. -/
+theorem C01_reachable_WFHist_built (li : LexIn) (g : Fsg) (hsil : li.sil < li.nCi)
+    (hr : Reachable shift (buildLexTree li g) g s) :
+    WFHist g s.hist s.frame ∧ SearchInv (buildLexTree li g) g s :=
+  have h := C01_reachable_WFHist (C01_build_lexTreeOK li g hsil) hr
+  ⟨h.1, h.2.1⟩
+
 /-! ### non-vacuity: a concrete lextree and three consecutive states
 
 FSG: `0 —w0→ 1 —ε→ 2 —w1→ 3`, a filler loop `0 —w2→ 0`.  Lextree of state 0: root pnode 0 (non-leaf) with
@@ -173,5 +193,40 @@ example : stepRelB 10 exLt exG exS { exS' with hmms := exS'.hmms.set! 1 ⟨6, [-
 /-- `evalHist3` on pnode 0 of `exS` (no skip transitions, emission scores 0) -/
 example : evalHist3 [1, 2, 255, 255, 255, 1, 2, 255, 255, 255, 1, 2] (fun _ => 0) (exS.hmm 0) =
     ⟨5, [-11, -12, -14], [0, 0, 0], -16, 0⟩ := by decide
+
+/-! ### non-vacuity of the construction: a three-state FSG, four words
+
+arcs: `0 —w0→ 1`, `0 —w1→ 1`, `0 —w3→ 1`, `0 —ε→ 2`, `1 —w2→ 1` (filler loop), `1 —w0→ 2`; words: `w0 = [1, 2]`,
+`w1 = [3]` (single phone), `w2 = [0]` (filler), `w3 = [1, 2, 4]` (shares the root set and the first phones of
+`w0`); five CI phones, silence = 0; the ssid lookups are arbitrary functions that merge some contexts. -/
+
+def bG : Fsg :=
+  { links := #[⟨0, 1, -10, 0⟩, ⟨0, 1, -2048, 1⟩, ⟨0, 1, 0, 3⟩, ⟨0, 2, -5, -1⟩, ⟨1, 1, -3000, 2⟩, ⟨1, 2, 0, 0⟩],
+    start := 0, final := 2, filler := [2] }
+
+def bIn : LexIn :=
+  { nCi := 5, sil := 0, wip := -3, pip := -1, shift := 10, nst := 3, nState := 3,
+    word := fun w => match w with
+      | 0 => { pron := [1, 2], dictWid := 10 }
+      | 1 => { pron := [3], dictWid := 11 }
+      | 2 => { pron := [0], fsgFiller := true, dictFiller := true, dictWid := 12 }
+      | _ => { pron := [1, 2, 4], dictWid := 13 },
+    lrdiph := fun _ lc => 100 + lc / 2, ldiph := fun _ _ lc => 200 + lc % 2, internal := fun _ p => 300 + p,
+    rcMap := fun _ _ rc => rc % 2, rcSsid := fun _ _ j => 400 + j, ciSsid := fun ci => ci, tmat := fun ci => ci }
+
+/-- left contexts of state 1: silence and the last phones of `w0`, `w1`, `w3`; right contexts of state 0: silence, the
+first phones of the words leaving it, and (through the null arc) those of state 2 -/
+example : ctxFlags bIn bG = (#[1, 29, 5], #[11, 3, 1]) := by decide
+example : (buildLexTree bIn bG).root = #[some 3, some 9, none] := by decide
+/-- (owner, leaf, link, succ, sibling, ssid): state 0 — root 0 for `(1, 2)` shared by `w0` and `w3`, leaves 1, 2 of
+`w0`, single-phone leaf/root 3, internal node 4 (prepended to the child chain 4 → 2 → 1 → 6 → 5), leaves 5, 6 of `w3`
+under node 4; state 1 — filler leaf/root 7, two roots 8, 9 (two distinct left-context ssids) sharing the leaf 10 -/
+example : (buildLexTree bIn bG).nodes.toList.map (fun n => (n.owner, n.leaf, n.link, n.succ, n.sibling, n.ssid)) =
+    [(0, false, 0, some 4, none, 200), (0, true, 0, none, none, 400), (0, true, 0, none, some 1, 401),
+     (0, true, 1, none, some 0, 100), (0, false, 0, some 6, some 2, 301), (0, true, 2, none, none, 400),
+     (0, true, 2, none, some 5, 401), (1, true, 4, none, none, 0), (1, false, 0, some 10, some 7, 200),
+     (1, false, 0, some 10, some 8, 201), (1, true, 5, none, none, 400)] := by decide
+example : (buildLexTree bIn bG).chainsEndB = true := by decide
+example : LexTreeOK (buildLexTree bIn bG) bG := C01_build_lexTreeOK bIn bG (by decide)
 
 end SSVerif.Search
